@@ -48,7 +48,8 @@ pub fn replay(_args: &[String]) {
         let r = catch(AssertUnwindSafe(|| {
             for (ji, req) in reqs.iter().enumerate() {
                 let j = ji + 1;
-                let own_label = format!("urn:c2pa:{:08x}-0000-4000-8000-{:012x}", vid, j);
+                // (a version-1 claim is labelled urn:uuid:.., a version-2 claim urn:c2pa:..)
+                let own_label = format!("urn:{}:{:08x}-0000-4000-8000-{:012x}", if vid % 5 == 2 { "uuid" } else { "c2pa" }, vid, j);
                 let mut assertions = vec![json!({"label": base_label(j), "data": {"marker": marker(vid, j, "c1")}}), json!({"label": base_label(j), "data": {"marker": marker(vid, j, "c2")}})];
                 let mut red: Vec<String> = vec![];
                 let mut actions = vec![];
@@ -66,6 +67,9 @@ pub fn replay(_args: &[String]) {
                 if !actions.is_empty() { assertions.push(json!({"label": "c2pa.actions", "data": {"actions": actions}})); }
                 let mut def = json!({"title": format!("L{j}"), "format": mime, "label": own_label, "claim_generator_info": [{"name": "vh", "version": "0.1"}], "assertions": assertions});
                 if !red.is_empty() { def["redactions"] = json!(red); }
+                // the claim's hash algorithm and version vary with the vector (one choice for the whole chain)
+                match vid % 7 { 1 => { def["hash_alg"] = json!("sha384"); } 3 => { def["hash_alg"] = json!("sha512"); } _ => {} }
+                if vid % 5 == 2 { def["claim_version"] = json!(1); }
                 // a generator that does not refuse does not validate its own output either
                 let sj = if rogue && j == reqs.len() { json!({"verify": {"remote_manifest_fetch": false, "verify_after_sign": false}}) } else { settings_json() };
                 let mut b = match Builder::from_context(ctx(&sj)).with_definition(def.to_string().as_str()) { Ok(b) => b, Err(e) => { levels.push(json!({"j": j, "sign": format!("definition:{}", err_kind(&e))})); break; } };
@@ -134,7 +138,11 @@ pub fn replay_update(_args: &[String]) {
         let mut steps_out = vec![];
         let r = catch(AssertUnwindSafe(|| {
             // the standard manifest that binds the content
-            let base = sign_bytes(ctx(&settings_json()), &simple_manifest_json("base", mime), mime, &fixture(fx), "ed25519");
+            // the hash algorithm of the content-binding manifest and of the update manifests varies with the vector
+            let halg = match vid % 7 { 1 | 4 => Some("sha384"), 3 => Some("sha512"), _ => None };
+            let mut base_def = simple_manifest_json("base", mime);
+            if let Some(h) = halg { if vid % 7 != 4 { base_def["hash_alg"] = json!(h); } }
+            let base = sign_bytes(ctx(&settings_json()), &base_def, mime, &fixture(fx), "ed25519");
             let mut cur = match base { Ok(b) => b, Err(e) => { steps_out.push(json!({"op": "base", "sign": format!("err:{}", err_kind(&e))})); return; } };
             steps_out.push(json!({"op": "base", "sign": "ok", "read": read(mime, &cur)}));
             for (si, st) in v["steps"].as_array().unwrap().iter().enumerate() {
@@ -149,6 +157,7 @@ pub fn replay_update(_args: &[String]) {
                 match st["action"].as_str().unwrap() { "allowed" => actions.push(json!({"action": if (vid + si) % 2 == 0 { "c2pa.published" } else { "c2pa.edited.metadata" }})), "disallowed" => actions.push(json!({"action": if (vid + si) % 2 == 0 { "c2pa.cropped" } else { "c2pa.edited" }})), _ => {} }
                 let mut def = json!({"title": format!("U{}", si + 1), "format": mime, "claim_generator_info": [{"name": "vh", "version": "0.1"}], "assertions": []});
                 if !actions.is_empty() { def["assertions"] = json!([{"label": "c2pa.actions", "data": {"actions": actions}}]); }
+                if let Some(h) = halg { if vid % 7 != 1 { def["hash_alg"] = json!(h); } }   // (1: base only, 4: updates only, 3: both)
                 let mut b = match Builder::from_context(ctx(&settings_json())).with_definition(def.to_string().as_str()) { Ok(b) => b, Err(e) => { steps_out.push(json!({"op": "U", "sign": format!("definition:{}", err_kind(&e))})); return; } };
                 b.set_intent(BuilderIntent::Update);
                 if st["extra"] == true {
